@@ -307,12 +307,22 @@ func (v *Validator) getActionsInSet(uids []types.EntityUID) []types.EntityUID {
 }
 
 func (v *Validator) isActionDescendant(actionUID, ancestorUID types.EntityUID) bool {
+	return v.isActionDescendantFrom(actionUID, ancestorUID, map[types.EntityUID]bool{})
+}
+
+// isActionDescendantFrom walks the action hierarchy. Resolve rejects cyclic action groups, but a resolved.Schema can
+// also be built by hand, so the walk remembers where it has been instead of relying on that.
+func (v *Validator) isActionDescendantFrom(actionUID, ancestorUID types.EntityUID, seen map[types.EntityUID]bool) bool {
+	if seen[actionUID] {
+		return false
+	}
+	seen[actionUID] = true
 	action := v.schema.Actions[actionUID]
 	for parent := range action.Entity.Parents.All() {
 		if parent == ancestorUID {
 			return true
 		}
-		if v.isActionDescendant(parent, ancestorUID) {
+		if v.isActionDescendantFrom(parent, ancestorUID, seen) {
 			return true
 		}
 	}
